@@ -176,7 +176,7 @@ S_ = "tdgl.solver.solver"
 MUTANTS = [
     dict(name="supercurrent uses psi_j conjugate", edits=[(M_, "return (psi.conjugate()[self.edges[:, 0]] * (self.psi_gradient @ psi)).imag", "return (psi.conjugate()[self.edges[:, 1]] * (self.psi_gradient @ psi)).imag")], units=["covariant_operators"]),
     dict(name="gradient link exponent sign", edits=[(M_, "link_variable_weights = np.exp(\n            -1j * np.einsum(\"ij, ij -> i\", link_exponents, edge_mesh.directions)\n        )\n    rows", "link_variable_weights = np.exp(\n            1j * np.einsum(\"ij, ij -> i\", link_exponents, edge_mesh.directions)\n        )\n    rows")], units=["covariant_operators"]),
-    dict(name="supercurrent real part", edits=[(M_, "(self.psi_gradient @ psi)).imag", "(self.psi_gradient @ psi)).real")], units=["covariant_operators"]),
+    dict(name="not a C04 violation: real part of the gauge-invariant bilinear is gauge invariant too", expect="pass", edits=[(M_, "(self.psi_gradient @ psi)).imag", "(self.psi_gradient @ psi)).real")], units=["covariant_operators"]),
     dict(name="temporal link dropped in w", edits=[(S_, "w = z * abs_sq_psi + U * (", "w = z * abs_sq_psi + (")], units=["step_covariance"]),
     dict(name="c computed with psi instead of z", edits=[(S_, "c = w.real * z.real + w.imag * z.imag", "c = w.real * psi.real + w.imag * psi.imag")], units=["step_covariance"]),
 ]
